@@ -104,6 +104,7 @@ func c10RunCouchbase(sc drv.Scenario, p *c10Params) drv.Result {
 	var hmu sync.Mutex
 	connOf := map[int]int{} // instance -> connection id of its KV connection (learned from its register write)
 	holdGet := map[int]chan struct{}{}
+	failGet := map[int]int{}  // instance -> number of its next reads of a peer's instance document that are answered with an error status
 	stalled := map[int]bool{} // instances whose heartbeat writes are refused (stalled process / KV time-outs)
 	delayIdxWrite := map[int]time.Duration{}
 	indexKey := "_connector:cbgo:g1:instance:all"
@@ -115,6 +116,15 @@ func c10RunCouchbase(sc drv.Scenario, p *c10Params) drv.Result {
 				if connOf[i] == r.ConnID && ch != nil {
 					env.Log.Add(evlog.Rec{K: "sim.holdget", VB: -1, A: uint64(i)})
 					return &cbsim.Action{Hold: ch, Async: true}
+				}
+			}
+		}
+		if r.Op == cbsim.OpGet && string(r.Key) != indexKey && strings.Contains(string(r.Key), ":instance:") {
+			for i, n := range failGet {
+				if n > 0 && connOf[i] == r.ConnID {
+					failGet[i] = n - 1
+					env.Log.Add(evlog.Rec{K: "sim.failget", VB: -1, A: uint64(i), S: string(r.Key)})
+					return &cbsim.Action{HasStatus: true, Status: 0x84} // an error status, not "no such document"
 				}
 			}
 		}
@@ -265,6 +275,15 @@ func c10RunCouchbase(sc drv.Scenario, p *c10Params) drv.Result {
 				return drv.Result{Verdict: drv.Inconclusive, Detail: err.Error()}
 			}
 			time.Sleep(8 * time.Millisecond) // join times come from the library's clock: keep the order unambiguous
+		case "getfail":
+			// one read of a (live) peer's instance document by instance a.I is answered with an error status: the reader either
+			// stops (it cannot tell who is alive) or carries on with the group as it is - it must not take the peer for gone
+			drv.NoteFlush("getfail inst%d", a.I)
+			hmu.Lock()
+			failGet[a.I] = 1
+			hmu.Unlock()
+			hx.WaitFor(3*time.Second, func() bool { return env.Log.Count("sim.failget") > 0 })
+			time.Sleep(300 * time.Millisecond)
 		case "idle":
 			time.Sleep(2700 * time.Millisecond) // expirySeconds is 2
 		case "leave":
@@ -822,6 +841,11 @@ func init() {
 					victim := k - 1
 					p.Actions = append(p.Actions, c10Action{Op: "replace", I: victim}, c10Action{Op: "quiesce"})
 				case 2: // CAS race between survivors
+					if i%12 == 8 && k >= 2 {
+						p.Hold = "getfail"
+						p.Actions = append(p.Actions, c10Action{Op: "getfail", I: alive[0]}, c10Action{Op: "quiesce"})
+						break
+					}
 					if i%6 == 2 && k >= 2 {
 						// a member whose heartbeats lapse is dropped by the others and then resumes
 						p.Hold = "stall"
@@ -939,6 +963,19 @@ func init() {
 				// the documented fail-stop of a member that finds itself dropped from the group: it never keeps a stale number
 				return drv.Result{Verdict: drv.Held, Checks: 1, Nontrivial: true, TraceHash: drv.Hash("cb-stall", string(sc.Params)), Events: map[string]int{"fail_stop": 1},
 					Sample: map[string]any{"kind": "couchbase", "hold": "stall", "outcome": "dropped member stopped itself: " + drv.PanicLine(out.Stderr)}}
+			}
+			if p.Hold == "getfail" && drv.IsLibraryPanic(out.Stderr) && strings.Contains(out.Stderr, "cbMembership).monitor") && strings.Contains(drv.PanicLine(out.Stderr), "\"status_code\":132") {
+				for _, nt := range out.Notes {
+					if strings.HasPrefix(nt, "getfail") {
+						// fail-stop of a member that could not read a peer's state
+						return drv.Result{Verdict: drv.Held, Checks: 1, Nontrivial: true, TraceHash: drv.Hash("cb-getfail", string(sc.Params)), Events: map[string]int{"fail_stop": 1},
+							Sample: map[string]any{"kind": "couchbase", "hold": "getfail", "outcome": "the reader stopped itself: " + drv.PanicLine(out.Stderr)}}
+					}
+				}
+			}
+			if p.Hold == "getfail" && strings.Contains(out.Stderr, "cant find self in cluster") {
+				return drv.Result{Verdict: drv.Violated, Clause: "dropped-alive", FindingKey: "C10/dropped-alive", Nontrivial: true,
+					Detail: "one read of a live peer's instance document was answered with an error status; the reader took the peer for gone and rewrote the group without it - the peer, alive and heart-beating all along, found itself dropped: " + drv.PanicLine(out.Stderr)}
 			}
 			if drv.IsLibraryPanic(out.Stderr) {
 				return drv.Result{Verdict: drv.Violated, Clause: "crash", FindingKey: "C10/process-death", Detail: "membership code killed the process: " + drv.PanicLine(out.Stderr), Witness: out.Stderr}
